@@ -13,7 +13,8 @@ class SramWorld(World):
     real_components = ("wishbone.sram.WishboneSRAM", "amaranth.lib.memory.Memory (dependency)")
     stub_components = ("Wishbone requester (seeded byzantine agent)",)
     fault_kinds = ("stb_held_through_ack", "cyc_alone", "stb_alone", "request_changes_in_ack_cycle",
-                   "partial_select", "zero_select", "write_to_read_only")
+                   "partial_select", "zero_select", "write_to_read_only",
+                   "init_is_one_shot_iterable", "init_reassigned")
     assumptions = (
         "Amaranth's Python RTL simulator executes the elaborated netlist (including its memory "
         "primitive) faithfully",
@@ -29,8 +30,13 @@ class SramWorld(World):
         g = rng.choice([x for x in (8, 16, 32, 64) if x <= dw])
         size = rng.choice([s for s in (1, 2, 4, 8, 16, 32, 64, 256, 1024) if s * g >= dw or rng.chance(0.1)])
         depth = max(1, size * g // dw)
-        return {"dw": dw, "g": g, "size": size, "writable": int(rng.chance(0.75)),
-                "init": [rng.bits(dw) for _ in range(depth if rng.chance(0.8) else depth // 2)]}
+        cfg = {"dw": dw, "g": g, "size": size, "writable": int(rng.chance(0.75)),
+               "init": [rng.bits(dw) for _ in range(depth if rng.chance(0.8) else depth // 2)],
+               "init_as": rng.choice(["list", "list", "tuple", "iter", "gen"])}
+        if rng.chance(0.15):
+            # the image is replaced through the `init` attribute before the design is elaborated
+            cfg["reinit"] = [rng.bits(dw) for _ in range(rng.range(0, depth))]
+        return cfg
 
     def gen_ops(self, rng, config, prop):
         dw, g = config["dw"], config["g"]
@@ -58,12 +64,26 @@ class SramWorld(World):
     def run(self, config, ops, props, stats, hist):
         from amaranth_soc.wishbone.sram import WishboneSRAM
         dw, g, size, wr = config["dw"], config["g"], config["size"], bool(config["writable"])
+        image = list(config["init"])
+        how = config.get("init_as", "list")
+        arg = {"list": lambda: list(image), "tuple": lambda: tuple(image),
+               "iter": lambda: iter(list(image)), "gen": lambda: (v for v in image)}[how]()
         dut = hw.construct(WishboneSRAM, size=size, data_width=dw, granularity=g, writable=wr,
-                           init=config["init"])
+                           init=arg)
+        if how in ("iter", "gen"):
+            stats.fault("init_is_one_shot_iterable")
+        if config.get("reinit") is not None:
+            image = list(config["reinit"])
+            try:
+                dut.init = list(image)
+            except (ValueError, TypeError) as e:
+                from simkit.core import Refused
+                raise Refused(f"init setter: {e}")
+            stats.fault("init_reassigned")
         wb = dut.wb_bus
         depth = size * g // dw
         nsel = dw // g
-        mem = list(config["init"]) + [0] * (depth - len(config["init"]))
+        mem = image + [0] * (depth - len(image))
         sim = hw.build_sim(hw.make_top(dut))
         sweep = []
         for a in range(depth):
@@ -162,9 +182,11 @@ class SramWorld(World):
                        init=config["init"][:max(1, (config["size"] // 2) * config["g"] // config["dw"])]), ops
         if any(config["init"]):
             yield dict(config, init=[]), ops
+        if config.get("init_as", "list") != "list":
+            yield dict(config, init_as="list"), ops
 
     def sample(self, config, ops):
-        c = dict(config, init=config["init"][:4])
+        c = dict(config, init=config["init"][:4], reinit=(config.get("reinit") or [])[:4])
         return {"config": c, "first_ops": ops[:6], "n_ops": len(ops)}
 
 
